@@ -62,7 +62,7 @@ BACK_UNIT = 0.5
 POOL = [0.0, TINY, 2.0 ** -10, 0.25, 0.5, 1.0, 1.5, 3.0, 7.0, 64.0, LARGE]
 MAY_RAISE = {(STOPPED, STOP), (NEW, RESTART)}           # DONT-CARE: RuntimeError or the documented effect
 NUMERIC = (ELAPSED, ELAPSED_MAX, LEFTOVER, LEFTOVER_NONE)
-MAX_DETAILED_FAILS = 200
+MAX_DETAILED_FAILS = 3
 
 
 class Boom(Exception):
@@ -85,7 +85,7 @@ class Kit:
         self.visit_mono = [0] * 36
         self.visit_back = [0] * 36
         self.cnt = {}
-        self.nfail = 0
+        self.nfail = {}
         self.path = [0] * 200
         self.depth = 0
         self.exit_args = (None, None, None)
@@ -109,8 +109,8 @@ class Kit:
                 'exit_with_exception': self.exit_args[0] is not None, 'keywords': self.kw}
 
     def report(self, clause, **detail):
-        self.nfail += 1
-        if self.nfail > MAX_DETAILED_FAILS:
+        self.nfail[clause] = self.nfail.get(clause, 0) + 1
+        if self.nfail[clause] > MAX_DETAILED_FAILS:      # the framework keeps the first 3 per clause
             self.ctx.fail(clause, None, None)
             return
         detail['call_index'] = self.depth - 1
@@ -205,6 +205,13 @@ def tolerated_value(s0, op, m, t, got):
 
 def call_and_check(K, w, m, op, t):
     """One call at clock reading t on the real watch `w` and the model `m`, all monitors."""
+    try:
+        _call_and_check(K, w, m, op, t)
+    except (TypeError, AttributeError) as e:   # a return value the monitors cannot even compare
+        K.report('outcome-of-unexpected-type', exc=e)
+
+
+def _call_and_check(K, w, m, op, t):
     mono = K.mono
     s0 = m.state
     K.visit[s0 * 12 + op] += 1
@@ -371,6 +378,8 @@ def _evaluate(K, case):
         ctx.fail('constructor-raised', case, {'exc': e})
         return
     m = WatchModel(duration)
+    if len(seq) > len(K.path):
+        K.path = [0] * len(seq)
     path = K.path
     left_new = False
     for i, op in enumerate(seq):
